@@ -1307,11 +1307,12 @@ pub fn gen_case(rng: &mut Rng, tier: &str, profile: &str, stats: &mut Stats) -> 
     let mut ops = Vec::new();
     let n = rng.range(2, 3);
     let retries = rng.range(1, 2);
-    let timeout = 400;
     let c15 = profile == "C15";
+    // C15: the session timeout (300 ms, real time) is deliberately shorter than the request timeout
+    let timeout = if c15 { 1000 } else { 400 };
     if c15 {
         // short real-time session timeout, small cache
-        ops.push(format!("hworld {} {} {} {} 400", n, retries, timeout, rng.range(1, 3)));
+        ops.push(format!("hworld {} {} {} {} 300", n, retries, timeout, rng.range(1, 3)));
     } else if profile == "C12" || rng.chance(1, 4) {
         let modes: String = (0..n).map(|_| match rng.below(6) { 0 => '1', 1 => '2', 2 => '3', _ => '0' }).collect();
         ops.push(format!("hworld {} {} {} 1000 86400000 {}", n, retries, timeout, modes));
@@ -1341,7 +1342,7 @@ pub fn gen_case(rng: &mut Rng, tier: &str, profile: &str, stats: &mut Stats) -> 
                 ops2.push(format!("hwru {} next known", z));
                 for _ in 0..3 { ops2.push("hdel next".into()); }
             }
-            if round == 0 || rng.chance(1, 2) { ops2.push("hsleep 1000".into()); }
+            if round == 0 || rng.chance(1, 2) { ops2.push("hsleep 700".into()); }
             let (a, b) = if rng.chance(1, 2) { (x, y) } else { (y, x) };
             ops2.push(format!("hreq {} {} enr {} {}", a, b, rid, rng.range(1, 4))); rid += 1;
             for _ in 0..2 { ops2.push("hdel next".into()); }
